@@ -14,9 +14,10 @@ def cases(rng, tier, focus):
         if rep % 3 == 0 and nte >= 2: lte[0] = 3; lte[-1] = 1
         k = int(rng.integers(1, min(D, 3) + 1)); cuts = np.sort(rng.choice(np.arange(1, D), size=k - 1, replace=False)) if k > 1 else np.array([], int)
         dims = np.diff(np.concatenate([[0], cuts, [D]])).astype(int)
-        yield dict(D=D, ltr=ltr, lte=lte, dims=dims.tolist(), alpha=float(10.0 ** rng.uniform(-13, 2)), seed=int(rng.integers(0, 10 ** 6)))
+        yield dict(D=D, ltr=ltr, lte=lte, dims=dims.tolist(), alpha=float(10.0 ** rng.uniform(-13, 2)), seed=int(rng.integers(0, 10 ** 6)),
+                   intfeat=(rep % 5 == 3), shared=(rep % 4 == 2))
 
-def nontrivial(c): return (tuple(c['ltr']), tuple(c['lte']), c['D'], tuple(c['dims']), round(np.log10(c['alpha'])))
+def nontrivial(c): return (tuple(c['ltr']), tuple(c['lte']), c['D'], tuple(c['dims']), round(np.log10(c['alpha'])), c.get('intfeat', False), c.get('shared', False))
 
 def reference(Xtr, Xte, alpha, dims=None):
     allx = np.vstack(Xtr); sf = np.sqrt(np.mean(allx ** 2, axis=0).sum())
@@ -45,7 +46,26 @@ def check(c):
     rng = np.random.default_rng(c['seed']); D = c['D']
     Xtr = [rng.normal(size=(l, D)) * rng.uniform(0.5, 2.0, D) for l in c['ltr']]
     Xte = [rng.normal(size=(l, D)) for l in c['lte']]
+    if c.get('intfeat'):
+        # integer-typed descriptors (counts / histograms): the rigidities are real numbers whatever the dtype of the features
+        Xtr = [rng.integers(0, 6, size=(l, D)) + np.eye(l, D, dtype=int) for l in c['ltr']]
+        Xte = [rng.integers(0, 6, size=(l, D)) + np.eye(l, D, dtype=int) for l in c['lte']]
     al = c['alpha']
+    if c.get('shared'):
+        # rigidities OF THE TRAINING SET: the test list holds the very arrays of the training list (what the call sees must not depend on that)
+        shared_ = [x.copy() for x in Xtr]
+        Ls, _ = lpr(shared_, shared_, al)
+        refs, _ = reference(Xtr, Xtr, al)
+        allx_ = np.vstack(Xtr); sf_ = np.sqrt(np.mean(allx_ ** 2, axis=0).sum()); S_ = np.vstack([np.mean(x / sf_, axis=0) for x in Xtr])
+        if al > 1e-11 * max(np.linalg.eigvalsh(S_.T @ S_).max(), 1e-300) or np.linalg.matrix_rank(S_) == D:
+            for s_, (a, b) in enumerate(zip(Ls, refs)):
+                expect(np.allclose(a, b, rtol=1e-5), 'post[C20]:LPR-equals-the-closed-form-1/(x-(XtX+alpha-I)^-1-xt)', f"test list shares its arrays with the training list; structure {s_}: {a} vs {b}")
+            shared2 = [x.copy() for x in Xtr]
+            CPRs, LCs, _ = cprf(shared2, shared2, al, np.array(c['dims']))
+            _, rlcs, rcprs, _ = reference(Xtr, Xtr, al, np.array(c['dims']))
+            for s_, (a, b) in enumerate(zip(LCs, rlcs)):
+                expect(np.allclose(a, b, rtol=1e-5), 'post[C20]:LCPR-equals-the-closed-form-restricted-to-the-component-block', f"test list shares its arrays with the training list; structure {s_}")
+            expect(np.allclose(CPRs, rcprs, rtol=1e-5), 'post[C20]:CPR-equals-the-closed-form-on-the-structure-averaged-features', "test list shares its arrays with the training list")
     L, rd = lpr([x.copy() for x in Xtr], [x.copy() for x in Xte], al)
     ref, rrd = reference(Xtr, Xte, al)
     # well-conditioned regime only for value comparison: alpha not below the float resolution of the covariance
